@@ -30,6 +30,7 @@ import (
 	"bytes"
 	"fmt"
 	"math"
+	"math/big"
 	"strconv"
 	"strings"
 
@@ -468,6 +469,70 @@ func (g *Gen) LP(n int, distinctEvery int) (string, [][]byte) {
 	return strings.TrimSpace(fmt.Sprintf("%d %s", n, strings.Join(toks, " "))), vals
 }
 
+// scoreText: the ASCII text of an old-format sorted-set score - one that strconv accepts (a text with
+// too few digits of a double near the largest one rounds up beyond it: ErrRange, the read fails by
+// design; such a text is not a score a server can have written)
+func (g *Gen) scoreText() string {
+	for {
+		t := g.scoreText1()
+		if _, err := strconv.ParseFloat(t, 64); err == nil && len(t) <= 252 {
+			return t
+		}
+	}
+}
+
+func (g *Gen) scoreText1() string {
+	var f float64
+	switch g.R.Intn(6) {
+	case 0:
+		f = vfutil.Pick(g.R, []float64{0.1, -0.1, 3.14, 1.5, 1e22, 1e23, 5e-324, 2.2250738585072014e-308, 2.225073858507201e-308,
+			math.MaxFloat64, -math.MaxFloat64, 9007199254740993, 0.30000000000000004, 1e-7, 123456789012345680000, 4503599627370496.5})
+	case 1:
+		// a double near an integer / a short decimal fraction
+		f = float64(g.intVal()%1000000) / vfutil.Pick(g.R, []float64{10, 100, 1000, 3, 7, 1 << 20})
+	default:
+		for {
+			f = math.Float64frombits(g.R.U64())
+			if !math.IsNaN(f) && !math.IsInf(f, 0) {
+				break
+			}
+		}
+	}
+	switch g.R.Intn(8) {
+	case 0:
+		return strconv.FormatFloat(f, 'g', -1, 64) // shortest text that reads back
+	case 1:
+		return strconv.FormatFloat(f, 'e', g.R.Range(0, 20), 64) // fewer / more digits than needed: real rounding
+	case 2:
+		if math.Abs(f) < 1e40 && math.Abs(f) > 1e-40 {
+			return strconv.FormatFloat(f, 'f', g.R.Range(0, 30), 64)
+		}
+		return strconv.FormatFloat(f, 'g', 17, 64)
+	case 3:
+		// a text exactly half way between two doubles (ties to even), or one digit beside it
+		if math.Abs(f) < 1e15 && math.Abs(f) >= 1 {
+			u := math.Float64bits(f)
+			lo, hi := new(big.Float).SetFloat64(f), new(big.Float).SetFloat64(math.Float64frombits(u+1))
+			mid := new(big.Float).SetPrec(200).Add(lo, hi)
+			mid.Quo(mid, big.NewFloat(2))
+			t := mid.Text('f', 80)
+			t = strings.TrimRight(t, "0")
+			if strings.HasSuffix(t, ".") {
+				t += "0"
+			}
+			if g.R.Chance(1, 2) {
+				t += "1"
+			}
+			if len(t) <= 252 {
+				return t
+			}
+		}
+		return strconv.FormatFloat(f, 'g', 17, 64)
+	default:
+		return strconv.FormatFloat(f, 'g', 17, 64) // C's %.17g
+	}
+}
+
 // ---------------------------------------------------------------- objects
 
 var AllKinds = []string{"str", "list", "lzl", "ql", "ql2", "set", "iset", "slp", "zs1", "zs2", "zzl", "zlp",
@@ -576,11 +641,23 @@ func (g *Gen) ObjKind(kind string) (string, *Val, string) {
 				st, f = "pinf", math.Inf(1)
 			case 1:
 				st, f = "ninf", math.Inf(-1)
-			default:
+			case 2, 3:
 				x := g.intVal() % (1 << 53)
 				a := strconv.FormatInt(x, 10)
 				st = "a:" + hx([]byte(a))
 				f, _ = strconv.ParseFloat(a, 64)
+			default:
+				// session 5: every decimal text rdbSaveDoubleValue (Redis < 4.0) can write (`%.17g`) and other
+				// forms strconv accepts; the expectation is what strconv.ParseFloat makes of the text, the Lean
+				// model rounds the same text with exact rational arithmetic (Model/Rdb/Float.lean)
+				a := g.scoreText()
+				kind = "zs1_decimal_text"
+				st = "a:" + hx([]byte(a))
+				var err error
+				f, err = strconv.ParseFloat(a, 64)
+				if err != nil || len(a) > 252 {
+					panic("vfc03: generated score text not parseable: " + a)
+				}
 			}
 			toks = append(toks, t, st)
 			v.Zset = append(v.Zset, ZMember{m, fmt.Sprintf("f:%d", math.Float64bits(f))})
@@ -641,13 +718,49 @@ func (g *Gen) ObjKind(kind string) (string, *Val, string) {
 		}
 		return strings.Join(toks, " "), v, kind
 	case "hzm":
+		// session 5: zipmaps with item lengths on both sides of the one-byte / five-byte length form
+		// (253 = the largest one-byte length, 254.. = `254` + 4 bytes little endian) and with 254 or
+		// more pairs (the <zmlen> byte saturates at 254: the reader has to walk the map)
 		n := g.R.Range(1, 6)
+		shape := "hzm"
+		switch g.R.Intn(10) {
+		case 0, 1, 2:
+			shape = "hzm_biglen"
+		case 3:
+			shape = "hzm_manypairs"
+			n = vfutil.Pick(g.R, []int{253, 254, 255, 256, 300})
+		}
 		v := &Val{Kind: "hash"}
 		toks := []string{"hzm", g.wrap(), strconv.Itoa(n)}
 		seen := map[string]bool{}
+		bigAt := g.R.Intn(2 * n)
+		bigLen := vfutil.Pick(g.R, []int{252, 253, 254, 255, 256, 257, 300, 1000})
+		if shape == "hzm_biglen" && g.bigLeft > 0 {
+			g.bigLeft--
+			bigLen = 70000 // the length needs three of the four bytes
+		}
+		mk := func(i, maxLen int) []byte {
+			if shape == "hzm_biglen" && (i == bigAt || g.R.Chance(1, 6)) {
+				l := bigLen
+				if i != bigAt {
+					l = vfutil.Pick(g.R, []int{253, 254, 255, 256})
+				}
+				b := make([]byte, l)
+				for j := range b {
+					b[j] = byte('a' + (i+j)%26)
+				}
+				// distinct fields: the index goes in front
+				copy(b, []byte(strconv.Itoa(i)+":"))
+				return b
+			}
+			if shape == "hzm_manypairs" {
+				return append([]byte(strconv.Itoa(i)+":"), g.bytesVal(6)...)
+			}
+			return g.bytesVal(maxLen)
+		}
 		for i := 0; i < n; i++ {
-			_, f := distinct(seen, func() (string, []byte) { b := g.bytesVal(40); return "", b })
-			val := g.bytesVal(60)
+			_, f := distinct(seen, func() (string, []byte) { return "", mk(2*i, 40) })
+			val := mk(2*i+1, 60)
 			free := 0
 			if g.R.Chance(1, 3) {
 				free = g.R.Intn(5)
@@ -655,7 +768,7 @@ func (g *Gen) ObjKind(kind string) (string, *Val, string) {
 			toks = append(toks, hx(f), hx(val), strconv.Itoa(free))
 			v.Hash = append(v.Hash, HField{f, val})
 		}
-		return strings.Join(toks, " "), v, kind
+		return strings.Join(toks, " "), v, shape
 	case "stream":
 		return g.Stream()
 	case "slpmany", "hlpmany":
